@@ -27,6 +27,8 @@ pub struct CaseReport {
     pub excluded_known: u64,
     /// Number of individual oracle comparisons made.
     pub checks: u64,
+    /// executions beyond the first that this case stands for (repeated free-running rounds)
+    pub executions: u64,
 }
 
 #[derive(Default)]
@@ -39,6 +41,7 @@ pub struct Acc {
     pub known_hits: BTreeMap<String, u64>,
     pub tainted: u64,
     pub oracle_checks: u64,
+    pub extra_executions: u64,
     pub internal_errors: Vec<String>,
     pub tainted_samples: Vec<(String, serde_json::Value)>,
 }
@@ -61,6 +64,7 @@ impl Acc {
         }
         self.tainted += o.tainted;
         self.oracle_checks += o.oracle_checks;
+        self.extra_executions += o.extra_executions;
         self.internal_errors.extend(o.internal_errors);
         for t in o.tainted_samples {
             if self.tainted_samples.len() < 5 {
@@ -76,6 +80,7 @@ impl Acc {
             Ok(rep) => {
                 self.excluded_known += rep.excluded_known;
                 self.oracle_checks += rep.checks;
+                self.extra_executions += rep.executions;
                 for c in &rep.classes {
                     *self.classes.entry((*c).to_string()).or_default() += 1;
                 }
